@@ -62,10 +62,9 @@ instance (m : Mode) : Decidable (ValidMode m) := by unfold ValidMode; infer_inst
 /-! ### the file-system facts `Path.__init__` looks at -/
 
 /-- one consistent snapshot of what the process can see of `abs_path`.
-`par` is `realpath(abs_path/..)`; `anc` is what the `cc` loop finds: the first
-of `par`, `par/..`, … for which `os.path.isdir` holds (non-directories are
-skipped); `near` is the first of the same chain that *exists* (the docstring's
-reading of "allowed to create"). -/
+`par` is `realpath(abs_path/..)`; `near` is what the `cc` loop finds: the first
+of `par`, `par/..`, … that exists (`os.access(·, F_OK)`), whatever its kind —
+the docstring's "allowed to create". -/
 structure Facts where
   ex : Bool        -- os.access(abs_path, F_OK)
   statOk : Bool    -- os.stat(abs_path) does not raise
@@ -77,8 +76,6 @@ structure Facts where
   x : Bool         -- os.access X_OK
   parDir : Bool    -- os.path.isdir(par)
   parW : Bool      -- os.access(par, W_OK)
-  ancDir : Bool    -- the chain contains a directory (always, "/" is one)
-  ancW : Bool      -- os.access(anc, W_OK)
   nearDir : Bool   -- the nearest existing ancestor is a directory
   nearW : Bool     -- os.access(near, W_OK)
 deriving DecidableEq, Repr
@@ -91,9 +88,7 @@ def Facts.wf (a : Facts) : Prop :=
   ¬ (a.isDir = true ∧ a.isFile = true) ∧ ¬ (a.isDir = true ∧ a.isFifo = true) ∧ ¬ (a.isFile = true ∧ a.isFifo = true) ∧
   (a.r = true → a.ex = true) ∧ (a.w = true → a.ex = true) ∧ (a.x = true → a.ex = true) ∧
   (a.ex = true → a.parDir = true) ∧
-  a.ancDir = true ∧
-  (a.parDir = true → a.nearDir = true ∧ a.nearW = a.parW ∧ a.ancW = a.parW) ∧
-  (a.nearDir = true → a.ancW = a.nearW)
+  (a.parDir = true → a.nearDir = true ∧ a.nearW = a.parW)
 
 instance (a : Facts) : Decidable a.wf := by unfold Facts.wf; infer_instance
 
@@ -110,10 +105,10 @@ deriving DecidableEq, Repr
 statement raises, what is raised).  The first condition that holds decides. -/
 def checks (m : Mode) (a : Facts) : List (Bool × Out) :=
   (if m.c > 0 then
-     [ (!(a.parDir || (m.c == 2 && a.ancDir)), .pathError 1),            -- not creatable since parent directory does not exist
-       (!(if a.parDir then a.parW else a.ancW), .pathError 2),           -- not creatable since parent directory not writeable
+     [ (!(a.parDir || (m.c == 2 && a.nearDir)), .pathError 1),           -- not creatable since parent directory does not exist
+       (!(if a.parDir then a.parW else a.nearW), .pathError 2),          -- not creatable since parent directory not writeable
        (m.d && a.ex && !a.isDir, .pathError 3),                          -- not creatable since path already exists
-       (m.f && a.ex && !a.isFile, .pathError 4) ]                        -- not creatable since path already exists
+       (m.f && a.ex && !(a.isFile || a.isFifo), .pathError 4) ]          -- not creatable since path already exists (`is_fifo`)
    else if m.d || m.f then
      [ (!a.ex, .pathError 5),                                            -- does not exist
        (m.d && !a.isDir, .pathError 6),                                  -- is not a directory
